@@ -296,6 +296,9 @@ def finish(prop, tier, seed, level, res: Result, errors, t0, rule, assumptions, 
         return 2
     if not ok_schema:
         return 2
+    if not cov["samples"]:
+        print("HARNESS-ERROR: the check recorded no sample case")
+        return 2
     if cov["states"] < 1 or cov["transitions"] < 1:
         print("HARNESS-ERROR: vacuous run (no states explored)")
         return 2
